@@ -139,7 +139,7 @@ PROPS = {
     "C17": dict(proj=proj_c17, gen={}, hist=True,
                 nontrivial=lambda st, case: st.get("log_entries", 0) >= 4,
                 rule=">= 4 log entries delivered to attached observers"),
-    "C18": dict(proj=proj_full, gen={}, hist=False, variants=True,
+    "C18": dict(proj=proj_full, gen={"focus": ["cloop", "call"]}, hist=False, variants=True,
                 nontrivial=lambda st, case: st.get("variants", 0) >= 3,
                 rule=">= 3 configuration variants compared"),
     "C20": dict(proj=proj_c20, gen={}, hist=True,
